@@ -322,7 +322,8 @@ class Assembler:
 
     # -- plain definition
     def _item(self, blk, tpl_path):
-        rel, s, it = self.locate(blk.arg)
+        arg, _, extra_attr = blk.arg.partition(" ## ")
+        rel, s, it = self.locate(arg)
         text = s.slice(it.start, it.end)
         lines = Lines.from_source(text, rel, s.line(it.start))
         log = []
@@ -338,6 +339,9 @@ class Assembler:
             if l.lstrip().startswith("#[derive("):
                 lines.pairs.insert(k + 1, ("#[verifier::external_derive]", o))
                 break
+        if extra_attr.strip():
+            # verifier-only attribute requested by the template (no effect on the running code)
+            lines.pairs.insert(0, (extra_attr.strip(), ("tpl", os.path.relpath(tpl_path, self.verif), blk.tpl_line, "attr")))
         self._log(log, rel, it)
         self.items.append({"item": it.header[:80], "file": rel, "lines": [s.line(it.start), s.line(it.end)], "sha256_16": sha(text)})
         self.out.pairs.extend(lines.pairs)
